@@ -50,6 +50,7 @@ type interpreter struct {
 	curFn              *ssa.Function
 	decSites           map[string]int
 	stubsUsed          map[string]bool
+	base               solverBase
 }
 
 // notHandled is returned by an intercept that declines (the body is interpreted instead).
